@@ -16,13 +16,32 @@ use std::time::{Duration, Instant};
 
 pub const BUILD_DIR: &str = "/verif/.build/debug";
 
+/// A private copy of a built executable, taken once per harness process: a rebuild that replaces
+/// the file in the build directory while a check is running (another check's build step, an
+/// edit of the harness) must not change what this check executes half-way through.
+fn private_copy(src: PathBuf, slot: &'static std::sync::OnceLock<PathBuf>) -> PathBuf {
+    slot.get_or_init(|| {
+        let name = src.file_name().map(|n| n.to_os_string()).unwrap_or_default();
+        let dst = scratch::root().join("bin").join(name);
+        let _ = std::fs::create_dir_all(dst.parent().unwrap());
+        match std::fs::copy(&src, &dst) {
+            Ok(_) => dst,
+            Err(_) => src,
+        }
+    })
+    .clone()
+}
+
 pub fn monorail_bin() -> PathBuf {
-    std::env::var("MRV_MONORAIL")
+    static SLOT: std::sync::OnceLock<PathBuf> = std::sync::OnceLock::new();
+    let src = std::env::var("MRV_MONORAIL")
         .map(PathBuf::from)
-        .unwrap_or_else(|_| PathBuf::from(BUILD_DIR).join("monorail"))
+        .unwrap_or_else(|_| PathBuf::from(BUILD_DIR).join("monorail"));
+    private_copy(src, &SLOT)
 }
 pub fn helper_bin() -> PathBuf {
-    PathBuf::from(BUILD_DIR).join("mrv-helper")
+    static SLOT: std::sync::OnceLock<PathBuf> = std::sync::OnceLock::new();
+    private_copy(PathBuf::from(BUILD_DIR).join("mrv-helper"), &SLOT)
 }
 
 pub fn monotonic_ns() -> u128 {
